@@ -45,14 +45,22 @@ DEF = dict(Mode='"cli"', Emit='FALSE', MaxMain=2, MaxInc=0, MainSel=[1, 25],
            ListFirstWins='FALSE', NegNoop='FALSE', SpliceLeaks='FALSE',
            NegSticky='FALSE', NoneUnset='FALSE', ValSel=[], ShapeSel=[1],
            GenSel=[], PreSel=[0], CanonSel=[0], ExecAlways='FALSE',
+           ExpSel=[], ExpandOrder='"single"',
            FinalShortCut='FALSE')
 
 CLI_ALL = list(range(1, 46))
 INVS = {'cli': ['FirstWins', 'Accumulates', 'IncludeInPlace',
-                'IncludeRestores', 'SecondPassOrderFree', 'ExecGuarded'],
-        'srv': ['NoUnsafeExpansion']}
+                'IncludeRestores', 'SecondPassOrderFree', 'ExecGuarded',
+                'NoRescan'],
+        'srv': ['NoUnsafeExpansion', 'NoRescan']}
 DEFECTS = {1: 'second_pass_restarts', 2: 'expansion_per_file',
-           4: 'include_glob_unsorted', 8: 'chained_options_expand_twice'}
+           4: 'include_glob_unsorted', 8: 'chained_options_expand_twice',
+           16: 'token_value_env_rescan'}
+# The pinned tree expands tokens first and then looks for ${VAR} in the result,
+# so a token VALUE (user name, host name) containing ${VAR} is expanded again;
+# ssh makes one pass.  Recorded as an observation (notes), not judged, until it
+# is listed or repaired: set to True to judge it.
+JUDGE_RESCAN = True
 
 
 def write_cfg(name, invs, **kw):
@@ -126,7 +134,12 @@ def plan(ctx):
         # caller: both passes run in the library's own connect()
         ('genfin', 'cli', dict(GenSel=[6, 7], PreSel=[0],
                                CanonSel=[0, 1, 2, 3, 4, 5, 6],
-                               TgtSel=[1, 3, 5, 7], **smp(8 if q else 1))),
+                               TgtSel=[1, 3, 5, 7], **smp(12 if q else 1))),
+        # expansion: every expanding option x templates of literal / %token /
+        # %% / ${VAR} pieces x token values and environment values that
+        # contain %, %%, %h, ${X}, $ themselves
+        ('expcli', 'cli', dict(ExpSel=[0, 1, 2, 3, 4], TgtSel=[1, 8, 9, 10])),
+        ('expsrv', 'srv', dict(ExpSel=[0], TgtSel=[1, 10, 15, 23, 9, 19])),
         ('gensrv', 'srv', dict(GenSel=[4], PreSel=[0, 52],
                                TgtSel=[1, 2, 3, 9, 12])),
         # value classes: the same option twice (every ordered pair of: ordinary
@@ -167,6 +180,12 @@ SENSITIVITY = [
      'SecondPassOrderFree'),
     ('execalways', 'cli', dict(GenSel=[6], PreSel=[0], TgtSel=[1, 3],
                                ExecAlways='TRUE'), 'ExecGuarded'),
+    ('envtok', 'cli', dict(ExpSel=[0, 1], TgtSel=[1, 9],
+                           ExpandOrder='"envtok"'), 'NoRescan'),
+    ('tokenv', 'cli', dict(ExpSel=[0, 2], TgtSel=[1, 8],
+                           ExpandOrder='"tokenv"'), 'NoRescan'),
+    ('envtok_srv', 'srv', dict(ExpSel=[0], TgtSel=[1, 10],
+                               ExpandOrder='"envtok"'), 'NoRescan'),
     ('splice', 'cli', dict(MaxMain=3, MaxInc=2, MainSel=[43, 25, 26],
                            IncSel=[2, 25, 5], SpliceLeaks='TRUE'),
      'IncludeRestores'),
@@ -195,7 +214,7 @@ ECHO_CASES = [
 
 
 def bits(n):
-    return [DEFECTS[b] for b in (1, 2, 4, 8) if n & b]
+    return [DEFECTS[b] for b in (1, 2, 4, 8, 16) if n & b]
 
 
 class Replayer:
@@ -209,6 +228,8 @@ class Replayer:
         self.suppressed = 0
         self.second = []
         self.second_val = []
+        self.rescan_seen = 0
+        self.rescan_example = ''
         self.connector = cd.Connector()
         self.resolved = 0
         self.glob_rev = self.world.glob_reversed
@@ -228,14 +249,14 @@ class Replayer:
                 self.ctx.violation({'module': 'Config', 'defect': key}, what,
                                    replay=replay)
 
-    def classify(self, obs, alts, prog):
+    def classify(self, obs, alts, prog, is_exp=0):
         """Name of the known departure(s) that explain(s) `obs`."""
         cd = self.cd
         best = None
         for fb, pred in alts:
             if fb & 4 and not self.glob_rev():
                 continue
-            if cd.norm(cd.pred_out(pred)) == obs:
+            if cd.pred_final(pred, is_exp) == obs:
                 # fewest departures; for chained options prefer the chain one
                 key = (bin(fb).count('1'), 0 if fb & 8 else 1)
                 if best is None or key < (bin(best).count('1'),
@@ -244,15 +265,16 @@ class Replayer:
         return best
 
     def cli(self, rec):
-        _, main, a, b, ti, p1, pr, alts1, alts, x = rec
+        _, main, a, b, ti, p1, pr, alts1, alts, x, is_exp = rec
         cd, menu, world = self.cd, self.menu, self.world
         self.n += 1
         world.write(menu, main, a, b, x)
         target = menu.targets[ti - 1]
         prog = (main, a, b)
         names = menu.names(prog)
-        first = cd.cli_first(world, target)
-        exp1, exp = cd.norm(cd.pred_out(p1)), cd.norm(cd.pred_out(pr))
+        first = cd.obs_final(cd.cli_first(world, target), is_exp)
+        exp1 = cd.pred_final(p1, is_exp)
+        exp = cd.pred_final(pr, is_exp)
         two_pass = p1 != pr or target[2] == 'canon'
         self.ctx.count(('cli', str(main), str(a), str(b), ti),
                        nontrivial=bool(two_pass or alts or
@@ -265,7 +287,7 @@ class Replayer:
                            f'loading {world.texts()} for {target} raised '
                            f'{first[1]}: {first[2]}', replay)
             return
-        checks = [('first pass', cd.norm(first), exp1, alts1)]
+        checks = [('first pass', first, exp1, alts1)]
         whole = None
         if x == 'chain':
             # deriving an options object must not change its parent
@@ -279,11 +301,11 @@ class Replayer:
         q = self.ctx.tier == 'quick'
         if (self.n % (12 if q else 6) == 0 or
                 ((two_pass or alts) and (x or not q or self.n % 2 == 0))) \
-                and 'ProxyJump' not in names:
+                and not names & {'ProxyJump', 'ProxyCommand'}:
             # the whole resolution, by the library's own connect() code
-            whole = self.connector.resolve(world, target)
-            checks.append(('resolution', cd.norm(whole)
-                           if isinstance(whole, list) else whole, exp, alts))
+            whole = cd.obs_final(self.connector.resolve(world, target),
+                                 is_exp)
+            checks.append(('resolution', whole, exp, alts))
             self.resolved += 1
         if self.n % 3000 == 1:
             self.ctx.sample({'files': world.texts(), 'target': target,
@@ -292,15 +314,26 @@ class Replayer:
         for what, obs, want, al in checks:
             if obs == want:
                 continue
-            fb = self.classify(obs, al, prog) if isinstance(obs, list) \
-                else None
+            fb = self.classify(obs, al, prog, is_exp) \
+                if isinstance(obs, list) else None
+            if fb and fb & 16 and not JUDGE_RESCAN:
+                self.rescan_seen += 1
+                if self.rescan_seen == 1:
+                    self.rescan_example = (
+                        f'{world.texts()} for {target}: one pass (ssh) gives '
+                        f'{want[3] or want[9]}, asyncssh '
+                        f'{obs if len(obs) < 10 else obs[3] or obs[9]}')
+                fb &= ~16
+                if not fb:
+                    continue
             if fb:
                 self.defect(bits(fb),
                             f'{what} of {world.texts()} for {target}: ssh '
                             f'rule gives {want}, asyncssh gives {obs} '
                             f'(explained by: {", ".join(bits(fb))})', replay)
                 continue
-            if cd.ssh_applicable(menu, prog, target) and what != 'first pass':
+            if cd.ssh_applicable(menu, prog, target, is_exp) and \
+                    what != 'first pass':
                 so = cd.ssh_G(world, target, 'veto')
                 if isinstance(so, list) and not cd.ssh_agrees(
                         so, want, want[5] != ['-'], names):
@@ -315,9 +348,9 @@ class Replayer:
                 f'{want}, asyncssh gives {obs}', replay)
             break
         else:
-            if cd.ssh_applicable(menu, prog, target):
+            if cd.ssh_applicable(menu, prog, target, is_exp):
                 (self.second_val if x or names & set(cd.TYPED)
-                 else self.second).append((main, a, b, ti, exp, x))
+                 or is_exp else self.second).append((main, a, b, ti, exp, x))
 
     def srv(self, rec):
         _, main, a, b, ui, unsafe, pr, alts, rawakf, x, typed = rec
@@ -602,7 +635,7 @@ def _main(ctx, cd, root):
     quick = ctx.tier == 'quick'
     runs = plan(ctx)
     results = {}
-    with cf.ThreadPoolExecutor(max_workers=5) as ex:
+    with cf.ThreadPoolExecutor(max_workers=7) as ex:
         futs = {}
         for name, mode, consts in runs:
             futs[ex.submit(run_tlc, name, INVS[mode] + ['EmitCase'],
@@ -661,6 +694,12 @@ def _main(ctx, cd, root):
     ctx.notes.append('replay per run (name:cases:seconds): ' + ' '.join(timing))
     ctx.notes.append(f'phases: TLC {t_tlc:.1f}s, replay + second opinion '
                      f'{time.time() - ctx.t0 - t_tlc:.1f}s')
+    if rep.rescan_seen:
+        ctx.notes.append(
+            f'OBSERVATION (not judged, JUDGE_RESCAN=False): {rep.rescan_seen} '
+            f'cases where a token value containing ${{VAR}} is expanded a '
+            f'second time (tokens first, then ${{}} over the result); e.g. '
+            f'{rep.rescan_example}')
     if rep.defect_hits:
         ctx.notes.append(f'cases explained by a named departure from the '
                          f'ssh rule: {rep.defect_hits}')
